@@ -127,11 +127,12 @@ PROFILES = {
             ("late-listeners", dict(intxn_defs=0.8, nest=0.9, n_listen=(0, 2))),
             # a switch over freshly built streams constructed in the same transaction as the sends it must see
             ("dynamic-in-txn", dict(intxn_defs=0.9, nest=0.95, n_listen=(0, 2), n_defs=(3, 8), sends_per_txn=(1, 3),
-                                    weights=W(switchdyn=5, switchlate=4, switchlatec=4, latelisten=3, csink=4, ssink=3, map=3, hold=2, merge=2)))],
+                                    weights=W(switchdyn=5, switchlate=4, switchlatec=4, latelisten=3, handlerlisten=3, latehold=1.5, lateloop=1.5, switchnest=2,
+                                              csink=4, ssink=3, map=3, hold=2, merge=2)))],
     "C02": [("streams", dict(n_defs=(4, 14), samples=0.1, self_merge=True,
                              weights=W(map=5, mapto=1, filter=3, filteropt=1, merge=6, orelse=2, snapshot=3, snapshot1=1, snapshotn=1.5, gate=2, once=2,
                                        hold=1.5, mapc=0.5, lift2=0.5, liftn=0, accum=0.5, collect=0.3, value=0.3, updates=1))),
-            ("streams-intxn", dict(n_defs=(3, 10), intxn_defs=0.5, self_merge=True, weights=W(once=3, merge=6, gate=2, switchlatec=1.5, switchlate=1, latelisten=2.5))),
+            ("streams-intxn", dict(n_defs=(3, 10), intxn_defs=0.5, self_merge=True, weights=W(once=3, merge=6, gate=2, switchlatec=1.5, switchlate=1, latelisten=2.5, handlerlisten=2))),
             # events re-emitted by defer/split/post in transactions of their own, meeting streams derived from the same source
             ("streams-deferred", dict(n_defs=(5, 12), n_listen=(2, 5), max_defer=2, posts=0.2, nest=0.6, self_merge=True,
                                       weights=W(defer=5, split=2, map=5, filter=2, merge=7, orelse=3, snapshot=2, hold=1.5, gate=1, once=1)))],
@@ -144,17 +145,20 @@ PROFILES = {
                            weights=W(hold=4, holdlazy=1.5, accum=3, collect=3, accumlazy=1.5, collectlazy=1, snaplazy=1.5, snapshot=4, csink=3, gate=1.5, mapc=1, lift2=1))),
             ("cells-deferred", dict(samples=0.6, n_txn=(4, 12), posts=0.4, max_defer=2, n_listen=(1, 3), sends_per_txn=(1, 3),
                                     weights=W(defer=4, split=2, hold=4, accum=3, collect=2, snapshot=5, snapshot1=1, csink=3, gate=1.5, map=2))),
+            # cells built by a listener handler while the transaction propagates, on streams that fire in it
+            ("cells-in-flight", dict(samples=0.5, n_txn=(4, 12), intxn_defs=0.4, sends_per_txn=(1, 3), n_listen=(0, 2),
+                                     weights=W(latehold=6, hold=3, map=5, ssink=4, csink=2, merge=3, snapshot=2))),
     ],
     "C05": [("switch-dynamic", dict(n_defs=(4, 10), sends_per_txn=(1, 4), samples=0.3, wfchecks=0.2, intxn_defs=0.3, unused_base=0.6,
-                                    weights=W(switchdyn=6, switchlate=4, switchlatec=5, switchs=2, csink=5, ssink=4, hold=2, map=2, merge=2, snapshot=1))),
+                                    weights=W(switchdyn=6, switchlate=4, switchlatec=5, switchnest=4, switchs=2, csink=5, ssink=4, hold=2, map=2, merge=2, snapshot=1))),
             ("switch-defer", dict(n_defs=(5, 11), sends_per_txn=(1, 4), max_defer=2, samples=0.3, wfchecks=0.3,
                                   weights=W(switchs=6, switchc=2, defer=5, split=1, csink=4, ssink=3, map=2, hold=2, merge=2))),
             ("switch", dict(n_defs=(5, 12), samples=0.5, intxn_defs=0.2, sends_per_txn=(1, 4),
                             weights=W(switchs=4, switchc=4, csink=4, hold=3, ssink=4, lift2=1, accum=1)))],
     "C10": [("listeners", dict(n_listen=(2, 6), unlisten=0.5, unlisten_in_txn=0.5, nest=0.8, intxn_defs=0.6, drops=0.3, gcs=0.3, weak=0.15,
-                               unlisten_new_in_txn=0.4, listen_fired_in_txn=0.5, listenkills=0.5, weights=W(value=2, hold=3, csink=3))),
+                               unlisten_new_in_txn=0.4, listen_fired_in_txn=0.5, listenkills=0.5, weights=W(value=2, hold=3, csink=3, handlerlisten=3))),
             ("listeners-handles-dropped", dict(n_listen=(3, 6), n_txn=(6, 14), unlisten=0.5, drop_listeners=0.6, drops=0.6, gcs=0.6, weights=W(value=1, hold=2, csink=2, map=3, merge=2)))],
-    "C11": [("loops", dict(n_defs=(3, 9), samples=0.4, nested_cloops=0.5, early_loop_handle=0.4, sends_around_loop=0.35, weights=W(sloop=2.5, cloop=2.5, hold=3, snapshot=4, accum=1, merge=4, gate=1, lift2=2, mapc=2))),
+    "C11": [("loops", dict(n_defs=(3, 9), samples=0.4, nested_cloops=0.5, early_loop_handle=0.4, sends_around_loop=0.35, weights=W(sloop=2.5, cloop=2.5, hold=3, snapshot=4, accum=1, merge=4, gate=1, lift2=2, mapc=2, lateloop=2))),
             ("loops-misuse", dict(n_defs=(3, 8), malformed=True, weights=W(sloop=2, cloop=2, hold=3, snapshot=3)))],
     "C12": [("defer-chains", dict(posts=0.3, samples=0.4, obs=0.4, max_defer=3, weights=W(defer=6, split=3, hold=3, csink=3, snapshot=4, snapshot1=2, once=1))),
             ("deferred", dict(posts=0.4, postsends=0.3, samples=0.4, sends_per_txn=(1, 4), weights=W(defer=4, split=3, hold=3, csink=3, snapshot=4, snapshot1=2, once=1.5, accum=1)))],
@@ -164,14 +168,17 @@ PROFILES = {
             ("brackets", dict(scoped=0.7, deep_nest=0.7, nest=0.95, obs=0.6, intxn_defs=0.3, n_txn=(4, 10), malformed=False)),
             # transactions opened by constructors that run inside the pre_eot phase of the outermost close (lazy thunks building FRP)
             ("brackets-dynamic", dict(intxn_defs=0.9, nest=0.95, scoped=0.3, obs=0.5, n_listen=(0, 2), n_defs=(3, 8), sends_per_txn=(1, 3),
-                                      weights=W(switchdyn=5, switchlate=4, switchlatec=4, latelisten=2, csink=4, ssink=3, map=3, hold=2, merge=2)))],
+                                      weights=W(switchdyn=5, switchlate=4, switchlatec=4, latelisten=2, latehold=2, switchnest=3, csink=4, ssink=3, map=3, hold=2, merge=2)))],
     "C15": [("sinks", dict(coalesce_sends=True, sends_per_txn=(1, 5), deep_nest=0.4, scoped=0.3, nest=0.8, samples=0.5, weights=W(ssinkc=6, csink=4, ssink=2, hold=3))),
             ("sinks-posted", dict(coalesce_sends=True, sends_per_txn=(1, 4), nest=0.9, samples=0.4, postsends=0.7, posts=0.2, max_defer=1,
                                   weights=W(ssinkc=7, csink=3, ssink=2, hold=3, merge=2, defer=1)))],
     "C17": [("lazies", dict(lazies=0.9, samples=0.3, n_txn=(4, 14), weights=W(mapc=4, lift2=3, liftn=1, holdlazy=3, hold=3, csink=4, accum=2, accumlazy=2, collectlazy=1, cloop=1, snaplazy=3, snapshot=2)))],
-    "C18": [("router", dict(n_defs=(4, 10), drops=0.3, gcs=0.3, drop_routers=0.3, rerequest=0.3, routelate=0.5, weights=W(router=5, route=4, ssink=4, map=3, merge=3, hold=1)))],
+    "C18": [("router", dict(n_defs=(4, 10), drops=0.3, gcs=0.3, drop_routers=0.3, rerequest=0.3, routelate=0.5, weights=W(router=5, route=4, ssink=4, map=3, merge=3, hold=1, accum=1.5, collect=1)))],
     "C06": [("drops", dict(drops=0.8, gcs=0.5, memchecks=0.5, n_defs=(5, 14), n_txn=(4, 12),
-                           weights=W(sloop=1.5, cloop=1.5, accum=2, collect=2, switchs=1.5, switchc=1, router=1, defer=1, lift2=2, lift2d=1.5, snapshotn=1, hold=3, snapshot=3)))],
+                           weights=W(sloop=1.5, cloop=1.5, accum=2, collect=2, switchs=1.5, switchc=1, router=1, defer=1, lift2=2, lift2d=1.5, snapshotn=1, hold=3, snapshot=3))),
+            # handles dropped by a listener handler, while the node they keep is queued for update
+            ("drops-in-flight", dict(drops=0.4, gcs=0.4, memchecks=0.3, n_defs=(4, 10), n_txn=(3, 10), sends_per_txn=(1, 3),
+                                     weights=W(leafdrop=6, map=4, merge=3, hold=2, ssink=4, csink=1, snapshot=1)))],
     "C07": [("periodic-switching", dict(n_defs=(4, 9), n_txn=(0, 2), n_listen=(1, 3), periodic=12, samples=0.0, obs=0.0, unlisten=0.0,
                                         weights=W(switchdyn=6, switchs=3, switchc=2, csink=5, ssink=4, hold=2, map=2, accum=1, router=1))),
             ("abandon-once-loops", dict(leakcheck=True, n_defs=(3, 8), n_txn=(1, 5), unlisten=0.2, no_switchc_in_loop=True,
@@ -183,7 +190,8 @@ PROFILES = {
             ("reorder", dict(n_defs=(4, 12), samples=0.4, weights=W(defer=0.7, lift2=2, accum=1, switchs=0.5))),
             # graphs that grow while events flow: streams, cells and listeners built inside handlers
             ("built-in-flight", dict(n_defs=(4, 10), samples=0.5, sends_per_txn=(1, 3), n_listen=(1, 3),
-                                     weights=W(switchlatec=6, switchlate=3, latelisten=4, snapmapc=2, map=5, hold=2, csink=2, ssink=4, merge=2)))],
+                                     weights=W(switchlatec=6, switchlate=3, latelisten=4, handlerlisten=3, latehold=3, lateloop=2, leafdrop=2, switchnest=2, snapmapc=2,
+                                               map=5, hold=2, csink=2, ssink=4, merge=2)))],
 }
 
 
@@ -254,6 +262,40 @@ def impl_predicates(pid, script, hl):
     if pid in ("C17",):
         for j, h in enumerate(hl):
             if " runs=" in h and not h.endswith("runs=ok"): return f"line {j}: a lazy thunk ran more than once: {h}"
+    if pid == "C12":
+        msg = defer_order(script, hl)
+        if msg: return msg
+    return None
+
+
+def defer_order(script, hl):
+    """C12 'events of one source kept in order', judged on the implementation alone: for every `defer d s` with one listener on
+    `s` and one on `d`, both registered before anything was sent and never unlistened, the values `d` delivers are the values
+    `s` fired, in the same order"""
+    first_send = next((j for j, l in enumerate(script) if l.split()[0] in ("send", "begin", "topen", "postsend")), len(script))
+    lis = {}
+    for j, l in enumerate(script):
+        w = l.split()
+        if w[0] == "listen" and len(w) == 3 and j < first_send: lis.setdefault(w[2], []).append(w[1])
+    gone = {l.split()[1] for l in script if l.split()[0] in ("unlisten", "drop", "listenkill") and len(l.split()) >= 2}
+    gone |= {l.split()[3] for l in script if l.split()[0] == "listenkill" and len(l.split()) == 4}
+    seqs = {}
+    for h in hl:
+        i = h.find(" | cb ")
+        if i < 0: continue
+        for tok in h[i + 6:].split():
+            if "=" in tok:
+                n, v = tok.split("=", 1); seqs.setdefault(n, []).append(v)
+    for j, l in enumerate(script):
+        w = l.split()
+        if w[0] == "defer" and len(w) == 3 and j < first_send:
+            for ls in lis.get(w[2], []):
+                for ld in lis.get(w[1], []):
+                    if ls in gone or ld in gone: continue
+                    a, b = seqs.get(ls, []), seqs.get(ld, [])
+                    if a != b and sorted(a) == sorted(b):
+                        return (f"[class defer-order-nested] `{l}`: the source fired {a} (listener {ls}), the deferred stream delivered {b} "
+                                f"(listener {ld}): events of one source are not kept in order")
     return None
 
 
@@ -282,6 +324,9 @@ def run_api_prop(pid, tier, seed, extra_corpus=()):
         msg = impl_predicates(pid, scripts[k], hl)
         if msg: hits.append((k, msg))
     # every corpus hit (they may be known findings) plus the first two generated ones
+    # (a mechanism-class predicate only speaks for programs on which the library agrees with S; the others are reported below)
+    differing = {k for (k, _, _, _) in bad}
+    hits = [h for h in hits if not (h[1].startswith("[class ") and h[0] in differing)]
     hits = [h for h in hits if h[0] < len(corp)] + [h for h in hits if h[0] >= len(corp)][:2]
     hit = hits[0] if hits else None
     os.environ["API_SCRIPT_TIMEOUT_MS"] = "2000"
@@ -299,6 +344,8 @@ def run_api_prop(pid, tier, seed, extra_corpus=()):
             else:
                 s = shrink(scripts[k], pred)
             sig = " ; ".join(s)
+        if msg.startswith("[class "):
+            sig = "class:" + msg[7:msg.index("]")]          # a finding identified by its mechanism (see known-findings.json)
         if sig in seen_sigs: return
         seen_sigs.add(sig)
         r, b, _, _ = compare([s])
